@@ -45,9 +45,11 @@ def T(text, **kw):
 # --------------------------------------------------------------------------------------------
 
 class Ctx:
-    def __init__(self, rng, scale):
+    def __init__(self, rng, budget):
         self.rng = rng
-        self.scale = scale          # multiplier for loop counts (safe point budget)
+        self.budget = budget        # safe points the whole program should stay near
+        self.allow = budget         # what is left for the block being generated
+        self.force_n = None         # calibration only: every loop count becomes this
         self.decls = []             # records / enums (must precede all functions)
         self.funcs = []
         self.have = set()
@@ -59,10 +61,15 @@ class Ctx:
         self.k += 1
         return self.k
 
-    def n(self, lo, hi):
-        """loop count scaled by the program's budget"""
-        v = int(self.rng.randint(lo, hi) * self.scale)
-        return max(2, v)
+    def n(self, lo, hi, per=10):
+        """loop count: a random value in lo..hi, cut down so that count * per (= estimated safe
+        points per iteration) stays within what is left of this block's allowance"""
+        v = self.rng.randint(lo, hi)
+        if self.force_n is not None:
+            return self.force_n
+        v = max(2, min(v, int(self.allow // per)))
+        self.allow -= v * per
+        return v
 
     def need(self, *names):
         for name in names:
@@ -239,7 +246,7 @@ def f1_state(c):
     c.funcs.append(T("""func mkacc${K}(init : int) -> (int) -> int
 {
     let st = mkp(init, 0);
-    let hist = {[ $h ]} : int;
+    var hist = {[ $h ]} : int;
     let func(d : int) -> int
     {
         st.x = (st.x + d * $m) % 1000;
@@ -277,7 +284,7 @@ def f1_chain(c):
     K = c.uid()
     c.need("mix", "idi", "churn")
     b = Block(1, 7)
-    d = r.randint(2, 7)
+    d = r.randint(2, 5)
     extra = r.choice(["n", "n * 2", "idi(n)", "churn(1) + n"])
     c.funcs.append(T("""func chain${K}(n : int, f(x : int) -> int) -> (int) -> int
 {
@@ -382,7 +389,8 @@ def f2_list(c):
     o
 }""", K=K))
     ln = r.randint(4, 12)
-    b.setup.append("var ls%d = build%d(%d, %d)" % (K, K, ln, r.randint(1, 9)))
+    b.setup.append("var ls%d = N%d" % (K, K))
+    b.setup.append("ls%d = build%d(%d, %d)" % (K, K, ln, r.randint(1, 9)))
     b.setup.append("var i%d = 0" % K)
     b.use.append("acc = mix(acc, sum%d(ls%d) + sum%d(rev%d(ls%d)))" % (K, K, K, K, K))
     n = c.n(3, 12)
@@ -419,18 +427,18 @@ def f2_reclist(c):
 {
     if (h == nil) { 0 } else { ($val + rs${K}(h.next) * 2) % 10007 }
 }""", K=K, val=val_h))
-    c.funcs.append(T("""func rl${K}(h : N${K}, k : int) -> int
+    c.funcs.append(T("""func rlen${K}(h : N${K}, k : int) -> int
 {
-    if (h == nil) { k } else { rl${K}(h.next, k + 1) }
+    if (h == nil) { k } else { rlen${K}(h.next, k + 1) }
 }""", K=K))
-    d = r.randint(3, 9)
+    d = r.randint(3, 7)
     b.setup.append("let rl%d = rb%d(%d, %d)" % (K, K, d, r.randint(1, 9)))
     b.setup.append("var i%d = 0" % K)
-    b.use.append("acc = mix(acc, rs%d(rl%d) + rl%d(rl%d, 0))" % (K, K, K, K))
+    b.use.append("acc = mix(acc, rs%d(rl%d) + rlen%d(rl%d, 0))" % (K, K, K, K))
     n = c.n(2, 10)
     b.use.append(T("""for (i${K} = 0; i${K} < $n; i${K} = i${K} + 1)
     {
-        acc = mix(acc, rs${K}(rb${K}(i${K} % $d + 1, i${K})) + rl${K}(rl${K}, i${K}))
+        acc = mix(acc, rs${K}(rb${K}(i${K} % $d + 1, i${K})) + rlen${K}(rl${K}, i${K}))
     }""", K=K, n=n, d=d))
     b.use.append('prints("r%d " + rs%d(rl%d) + "\\n")' % (K, K, K))
     b.late.append("acc = mix(acc, rs%d(rl%d.next))" % (K, K))
@@ -561,7 +569,7 @@ def f2_tree(c):
     };
     t
 }""", K=K, bb=bb, q=q))
-    b.setup.append("var tr%d = grow%d(%d, %d)" % (K, K, cnt, a))
+    b.setup.append("let tr%d = grow%d(%d, %d)" % (K, K, cnt, a))
     b.use.append("acc = mix(acc, tsum%d(tr%d, 1))" % (K, K))
     # prune a subtree (garbage), grow a garbage tree
     if r.random() < 0.5:
@@ -804,8 +812,8 @@ def f4_build(c):
     b = Block(4)
     form = r.choice(['"" + (i * %d %% 10)' % r.randint(1, 9),
                      'str(i %% %d)' % r.randint(3, 30),
-                     '"<" + i %% 7 + ">"',
-                     '(if (i %% 2 == 0) "e" else "o") + i %% 5'])
+                     '"<" + i % 7 + ">"',
+                     '(if (i % 2 == 0) "e" else "o") + i % 5'])
     c.funcs.append("func dig%d(i : int) -> string { %s }" % (K, form))
     cap = r.randint(8, 30)
     c.funcs.append(T("""func sb${K}(n : int, seed : string) -> string
@@ -819,7 +827,8 @@ def f4_build(c):
     };
     s
 }""", K=K, cap=cap))
-    b.setup.append('var st%d = sb%d(%d, "%s")' % (K, K, r.randint(3, 12), r.choice(["", "x", "ab", "seed"])))
+    b.setup.append('var st%d = ""' % K)
+    b.setup.append('st%d = sb%d(%d, "%s")' % (K, K, r.randint(3, 12), r.choice(["", "x", "ab", "seed"])))
     b.setup.append("var i%d = 0" % K)
     n = c.n(4, 20)
     b.use.append(T("""for (i${K} = 0; i${K} < $n; i${K} = i${K} + 1)
@@ -1152,8 +1161,8 @@ catch (division_by_zero)
     b.use.append(T("""for (i${K} = 0; i${K} < $n; i${K} = i${K} + 1)
     {
         acc = mix(acc, safe${K}(i${K} % $dep + 1, i${K} % $m, kd${K}) + kd${K}.y)
-    }""", K=K, n=n, dep=r.randint(2, 7), m=r.randint(2, 3)))
-    b.late.append("acc = mix(acc, safe%d(%d, 0, kd%d))" % (K, r.randint(1, 6), K))
+    }""", K=K, n=n, dep=r.randint(2, 5), m=r.randint(2, 3)))
+    b.late.append("acc = mix(acc, safe%d(%d, 0, kd%d))" % (K, r.randint(1, 5), K))
     return b
 
 
@@ -1243,8 +1252,8 @@ def f7_deep(c):
     b.use.append(T("""for (i${K} = 0; i${K} < $n; i${K} = i${K} + 1)
     {
         acc = mix(acc, deep${K}(i${K} % $d + 2, "") + ev${K}(i${K} % $d2 + 1, mkp(i${K}, 1)))
-    }""", K=K, n=n, d=r.randint(2, 7), d2=r.randint(2, 8)))
-    b.use.append('prints("D%d " + deep%d(%d, "%s") + "\\n")' % (K, K, r.randint(3, 9), r.choice(["", "pre"])))
+    }""", K=K, n=n, d=r.randint(2, 5), d2=r.randint(2, 6)))
+    b.use.append('prints("D%d " + deep%d(%d, "%s") + "\\n")' % (K, K, r.randint(3, 7), r.choice(["", "pre"])))
     return b
 
 
@@ -1297,11 +1306,13 @@ def f8_mixed(c):
 {
     let func(x : int) -> int { (x * 3 + a) % 499 }
 }""", K=K))
-        decl.append("var f = ad%d(%d);" % (K, r.randint(1, 9)))
+        decl.append("var f = let func(x : int) -> int { x };")
+        decl.append("f = ad%d(%d);" % (K, r.randint(1, 9)))
         body.append("f = ad%d(f(i) %% 50)" % K)
         fin.append("f(%d)" % r.randint(1, 9))
     if "rec" in parts:
-        decl.append("var p = mkp(%d, %d);" % (r.randint(1, 9), r.randint(1, 9)))
+        decl.append("var p = P;")
+        decl.append("p = mkp(%d, %d);" % (r.randint(1, 9), r.randint(1, 9)))
         body.append("p = mkp((p.y + i) % 500, p.x)")
         fin.append("p.x + p.y")
     if "lst" in parts:
@@ -1310,7 +1321,8 @@ def f8_mixed(c):
 {
     Q${K}(i + 0, Q${K}(i + 1, Q${K}(i + 2, nil)))
 }""", K=K))
-        decl.append("var q = q3%d(0);" % K)
+        decl.append("var q = Q%d;" % K)
+        decl.append("q = q3%d(0);" % K)
         body.append("q = q3%d((q.next.v + q.next.next.v + i) %% 300)" % K)
         fin.append("q.v")
     r.shuffle(body)
@@ -1377,39 +1389,20 @@ def interleave(rng, blocks):
     return out + lates
 
 
-def gen_one(seed, index):
-    h = int(hashlib.sha256(("%d:%d" % (seed, index)).encode()).hexdigest()[:16], 16)
-    rng = random.Random(h)
-    scale = rng.choice([0.5, 0.75, 1.0, 1.0, 1.5, 2.0])
-    c = Ctx(rng, scale)
-    c.need("mix")
-    nfam = rng.randint(3, 6)
-    fams = rng.sample(sorted(FAMILIES), nfam)
-    blocks = []
-    for f in fams:
-        blocks.append(rng.choice(FAMILIES[f])(c))
-    covered = set()
-    for b in blocks:
-        covered |= b.fams
+def assemble(rng, c, blocks, wrap, unhandled):
+    """program text for the given blocks (helpers/records/functions are already in c)"""
     body = interleave(rng, blocks)
-    unhandled = rng.random() < 0.03
-    wrap = rng.random() < 0.5
     if unhandled:
         c.need("idi")
     if wrap:
         c.need("P")
-    lines = []
-    lines.extend(c.decls)
-    lines.append("")
-    lines.extend(c.funcs)
-    lines.append("")
     init = rng.randint(1, 999)
     stm = ["var acc = %s" % ("s0 + 0" if wrap else str(init))] + body
     stm.append('prints("acc " + acc + "\\n")')
     if unhandled:
         stm.append(rng.choice(["acc = acc + idi(acc) / idi(0)",
                                "acc = acc + [ 1, 2 ] : int[idi(acc) + 2]"]))
-    text = "\n".join(lines)
+    text = "\n".join(c.decls) + "\n\n" + "\n".join(c.funcs) + "\n"
     if wrap:
         a, bb = rng.randint(1, 99), rng.randint(1, 99)
         stm.append("acc + kp0.x")
@@ -1426,6 +1419,27 @@ func main() -> int
     else:
         stm.append("acc")
         text += "\nfunc main() -> int\n{\n    " + ";\n    ".join(stm) + "\n}\n"
+    return text
+
+
+def gen_one(seed, index):
+    h = int(hashlib.sha256(("%d:%d" % (seed, index)).encode()).hexdigest()[:16], 16)
+    rng = random.Random(h)
+    budget = rng.choice([900, 1300, 1800, 2400, 3000])   # safe points, roughly
+    c = Ctx(rng, budget)
+    c.need("mix")
+    nfam = rng.randint(3, 6)
+    fams = rng.sample(sorted(FAMILIES), nfam)
+    blocks = []
+    for f in fams:
+        c.allow = budget / nfam
+        blocks.append(rng.choice(FAMILIES[f])(c))
+    covered = set()
+    for b in blocks:
+        covered |= b.fams
+    unhandled = rng.random() < 0.03
+    wrap = rng.random() < 0.5
+    text = assemble(rng, c, blocks, wrap, unhandled)
     pid = "gen-s%d-%d-f%s%s" % (seed, index, "".join(str(f) for f in sorted(covered)),
                                 "u" if unhandled else "")
     header = "# %s  (generated by harness/c04/gen.py, seed %d index %d)\n" % (pid, seed, index)
